@@ -336,8 +336,19 @@ func (b *Bus) SetCANIDBuilder(canIDBuilder *CANIDBuilder) {
 	if b.canIDBuilder != nil {
 		b.canIDBuilder.removeRef(b.entityID)
 	}
+
+	// a nil builder means that the bus goes back to the default one
+	if canIDBuilder == nil {
+		b.canIDBuilder = newDefaultCANIDBuilder()
+		b.canIDBuilder.addRef(b)
+		b.isDefCANIDBuilder = true
+		return
+	}
+
 	b.canIDBuilder = canIDBuilder
 	b.isDefCANIDBuilder = false
+
+	canIDBuilder.addRef(b)
 }
 
 // CANIDBuilder returns the [CANIDBuilder] of the [Bus].
